@@ -435,31 +435,53 @@ def consistent(b, image):
 # ------------------------------------------------------------------------------------------------------------------
 # one request on one image
 # ------------------------------------------------------------------------------------------------------------------
+CHUNK = 1 << 20
+
+
+def same_bytes(p0, p1):
+    """byte equality of two files, chunk by chunk (no image-sized python objects)"""
+    if os.path.getsize(p0) != os.path.getsize(p1):
+        return False
+    with open(p0, "rb") as f0, open(p1, "rb") as f1:
+        while True:
+            a = f0.read(CHUNK)
+            if a != f1.read(CHUNK):
+                return False
+            if not a:
+                return True
+
+
 def meta_changed(img0, img1, sb):
     """True iff the request rewrote at least one metadata object other than the superblock: bytes differ outside the primary
     superblock and outside the first block of every group (the backup superblock copies)."""
     u32 = lambda o: struct.unpack_from("<I", sb, o)[0]
     bs = 1024 << u32(0x18)
     first, bpg = u32(0x14), u32(0x20)
-    d0 = img0 if isinstance(img0, bytes) else open(img0, "rb").read()
-    d1 = img1 if isinstance(img1, bytes) else open(img1, "rb").read()
-    if len(d0) != len(d1):
+    if os.path.getsize(img0) != os.path.getsize(img1):
         return True
-    if d0 == d1:
-        return False
-    nblk = len(d0) // bs
-    for blk in range(nblk):
-        a = d0[blk * bs:(blk + 1) * bs]
-        if a == d1[blk * bs:(blk + 1) * bs]:
-            continue
-        if blk == (1 if bs == 1024 else 0):
-            if bs == 1024 or a[:1024] + a[2048:] == d1[blk * bs:blk * bs + 1024] + d1[blk * bs + 2048:(blk + 1) * bs]:
-                continue
-            return True
-        if bpg and blk >= first and (blk - first) % bpg == 0:
-            continue
-        return True
-    return False
+    per = max(1, CHUNK // bs)
+    with open(img0, "rb") as f0, open(img1, "rb") as f1:
+        base = 0
+        while True:
+            d0 = f0.read(per * bs)
+            d1 = f1.read(per * bs)
+            if not d0 and not d1:
+                return False
+            if d0 != d1:
+                for k in range((max(len(d0), len(d1)) + bs - 1) // bs):
+                    a = d0[k * bs:(k + 1) * bs]
+                    c = d1[k * bs:(k + 1) * bs]
+                    if a == c:
+                        continue
+                    blk = base + k
+                    if blk == (1 if bs == 1024 else 0):
+                        if bs == 1024 or (a[:1024] == c[:1024] and a[2048:] == c[2048:]):
+                            continue
+                        return True
+                    if bpg and blk >= first and (blk - first) % bpg == 0:
+                        continue
+                    return True
+            base += per
 
 
 CSUM_KEY_FIELDS = {"s_uuid", "s_checksum_seed", "s_inode_size", "s_checksum_type"}
@@ -480,28 +502,93 @@ def obs_wanted(line):
     return csum or quota, quota
 
 
+class Observers:
+    """gen/c11_rich.py observe() in processes of their own (the reader is pure python: threads would serialise on the GIL),
+    kept alive and reused: one request line in, one JSON line out."""
+    def __init__(self):
+        import queue
+        self.idle = queue.SimpleQueue()
+        self.all = []
+        self.lock = __import__("threading").Lock()
+
+    def _spawn(self):
+        import subprocess
+        env = dict(os.environ, PYTHONPATH=os.pathsep.join([os.path.join(VERIF, d) for d in ("lib", "reader", "gen")]))
+        p = subprocess.Popen([sys.executable, os.path.join(VERIF, "gen", "c11_rich.py"), "--serve"], stdin=subprocess.PIPE,
+                             stdout=subprocess.PIPE, stderr=subprocess.DEVNULL, env=env)
+        with self.lock:
+            self.all.append(p)
+        return p
+
+    def observe(self, img, want_quota, timeout=300):
+        import select
+        try:
+            p = self.idle.get_nowait()
+        except Exception:
+            p = self._spawn()
+        try:
+            p.stdin.write(("%d\t%s\n" % (1 if want_quota else 0, img)).encode())
+            p.stdin.flush()
+            buf = b""
+            end = time.time() + timeout
+            while not buf.endswith(b"\n"):
+                r, _, _ = select.select([p.stdout], [], [], max(0.0, end - time.time()))
+                if not r:
+                    p.kill()
+                    return {"fatal": "observer timed out"}
+                chunk = os.read(p.stdout.fileno(), 1 << 16)
+                if not chunk:
+                    p.kill()
+                    return {"fatal": "observer died"}
+                buf += chunk
+            o = json.loads(buf.decode())
+        except (OSError, ValueError) as e:
+            p.kill()
+            return {"fatal": "observer: %s" % e}
+        self.idle.put(p)
+        return o
+
+    def close(self):
+        with self.lock:
+            ps, self.all = self.all, []
+        for p in ps:
+            try:
+                p.stdin.close()
+            except OSError:
+                pass
+            try:
+                p.wait(timeout=10)
+            except Exception:
+                p.kill()
+
+
+OBSERVERS = Observers()
+
+
 def observe_image(img, want_quota):
-    """gen/c11_rich.py observe() in a process of its own (the reader is pure python: threads would serialise on the GIL)"""
-    rc, out, err = sh([sys.executable, os.path.join(VERIF, "gen", "c11_rich.py"), "--observe", img, "1" if want_quota else "0"],
-                      timeout=300, env=dict(os.environ, PYTHONPATH=os.pathsep.join([os.path.join(VERIF, d) for d in ("lib", "reader", "gen")])))
-    if rc != 0:
-        return {"fatal": "observer exit %d: %s" % (rc, err.decode("utf8", "replace")[-300:])}
-    try:
-        return json.loads(out.decode())
-    except ValueError as e:
-        return {"fatal": "observer output: %s" % e}
+    return OBSERVERS.observe(img, want_quota)
 
 
-def run_step(b, profile, op, img, work, prev_digest, tag):
-    """Runs `op` on image `img` (modified in place when accepted; restored when refused).  Returns (line, new digest)."""
+def run_step(b, profile, op, img, work, prev_digest, tag, pristine=None):
+    """Runs `op` on image `img` (modified in place when accepted; restored when refused).  Returns (line, new digest).
+    `pristine`: a read-only file known to be byte-identical to `img` (the starting image at the first step of a sequence);
+    it then serves as the copy of the state before the request and no second copy is made."""
     env = tool_env(b, {"E2FSPROGS_UNDO_DIR": "none"})
     tune = os.path.join(b, "misc", "tune2fs")
     fsck = os.path.join(b, "e2fsck", "e2fsck")
-    keep = img + ".pre"
-    with open(img, "rb") as f:
-        d0 = f.read()                       # the image before the request: read once, compared in memory below
-    with open(keep, "wb") as f:
-        f.write(d0)
+    keep = pristine or (img + ".pre")
+    if not pristine:
+        shutil.copyfile(img, keep)
+
+    def restore():
+        if pristine:
+            shutil.copyfile(keep, img)
+        else:
+            os.replace(keep, img)
+
+    def drop():
+        if not pristine:
+            os.unlink(keep)
     sb0, a0 = abstract_img(img)
     line = {"e": "tune", "profile": profile, "op": op, "cmd": op_key(op), "rc": -1, "asked_f": 0, "asked_d": 0, "before": a0, "after": a0,
             "mid": a0, "changed": [], "fsck_req_rc": -1, "fsck_after_rc": -1, "tree_equal": -1, "consistent": -1, "nontrivial": 0, "sig": 0,
@@ -511,23 +598,22 @@ def run_step(b, profile, op, img, work, prev_digest, tag):
     line["sig"] = 1 if rc < 0 or rc > 120 else 0
     line["rc"] = 0 if rc == 0 else (1 if 0 < rc <= 120 else 2)
     line["out"] = txt[-500:]
-    with open(img, "rb") as f:
-        d1 = f.read()
     if rc != 0:
-        line["restored"] = 0 if d1 == d0 else 1
-        os.replace(keep, img)
+        line["restored"] = 0 if same_bytes(img, keep) else 1
+        if line["restored"] or not pristine:
+            restore()
         return line, prev_digest
     line["asked_d"] = 1 if "Please run e2fsck -fD on the filesystem" in txt else 0
     line["asked_f"] = 1 if "Please run e2fsck -f on the filesystem" in txt else 0
-    if not (line["asked_d"] or line["asked_f"]) and d1 == d0:
+    if not (line["asked_d"] or line["asked_f"]) and same_bytes(img, keep):
         # the request changed no byte of the image: same state as before, whose verdicts are already established
         line.update(fsck_after_rc=0, consistent=1, tree_equal=1, noop=1)
-        os.unlink(keep)
+        drop()
         return line, prev_digest
     sbm, am = abstract_img(img)
     if sbm is None:
         line["consistent"] = 0; line["tree_equal"] = 0; line["fsck_out"] = "superblock magic lost"
-        os.replace(keep, img)
+        restore()
         return line, prev_digest
     line["mid"] = am
     if line["asked_d"] or line["asked_f"]:
@@ -535,18 +621,15 @@ def run_step(b, profile, op, img, work, prev_digest, tag):
         line["fsck_req_rc"] = r2
         if r2 not in (0, 1):
             line["fsck_out"] = (o2 + e2).decode("utf8", "replace")[-500:]
-        with open(img, "rb") as f:
-            d1 = f.read()
     sb1, a1 = abstract_img(img)
     if sb1 is None:
         line["consistent"] = 0; line["tree_equal"] = 0; line["fsck_out"] = "superblock magic lost"
-        os.replace(keep, img)
+        restore()
         return line, prev_digest
     line["after"] = a1
     line["changed"] = changed_fields(sb0, sb1)
     line["changed_mid"] = changed_fields(sb0, sbm)
-    line["nontrivial"] = 1 if meta_changed(d0, d1, sb0) else 0
-    d0 = d1 = None
+    line["nontrivial"] = 1 if meta_changed(keep, img, sb0) else 0
     r3, o3 = consistent(b, img)
     line["fsck_after_rc"] = r3
     line["consistent"] = 1 if r3 == 0 else 0
@@ -566,7 +649,7 @@ def run_step(b, profile, op, img, work, prev_digest, tag):
             line["obs_err"] = o["fatal"]
         else:
             line.update(obs=1, qobs=1 if want_quota else 0, stale=o["stale"], qfile=o["qfile"], inodes=o["inodes"])
-    os.unlink(keep)
+    drop()
     return line, (dg if not derr else prev_digest)
 
 
@@ -580,7 +663,7 @@ def run_sequence(args):
     lines = []
     try:
         for k, op in enumerate(ops):
-            line, dg = run_step(b, profile, op, img, work, dg, "s%d" % idx)
+            line, dg = run_step(b, profile, op, img, work, dg, "s%d" % idx, pristine=os.path.join(basedir, profile + ".img") if k == 0 else None)
             line["seq"] = idx; line["step"] = k
             lines.append(line)
             if line["rc"] == 0 and (line["consistent"] != 1 or line["tree_equal"] != 1):
@@ -890,6 +973,7 @@ def run(tier):
         ]
         return vd.finish()
     finally:
+        OBSERVERS.close()
         shutil.rmtree(work, ignore_errors=True)
 
 
@@ -921,4 +1005,5 @@ def replay(path):
         print("replay accepted by Trace_Tune")
         return 0
     finally:
+        OBSERVERS.close()
         shutil.rmtree(work, ignore_errors=True)
